@@ -184,8 +184,10 @@ pub fn parse(
     parse_file_context: ParseFileContext,
 ) -> Result<Option<ParsedData>, ParseError> {
     // We will only produce output for files that contain the `#[typeshare]`
-    // attribute, so this is a quick and easy performance win
-    if !parse_file_context.source_code.contains("#[typeshare") {
+    // attribute, so this is a quick and easy performance win. The attribute may be
+    // written with a path (`#[typeshare::typeshare]`, `#[::typeshare::typeshare]`),
+    // so look for the name rather than for `#[typeshare`.
+    if !parse_file_context.source_code.contains("typeshare") {
         return Ok(None);
     }
 
